@@ -196,92 +196,113 @@ theorem dedupGo_subset (l : List Entry) : ∀ seen e, e ∈ dedupGo seen l → e
       · subst h; exact List.mem_cons_self
       · exact List.mem_cons_of_mem _ (ih _ _ h)
 
+/-! ### rank of an answer: `better` is `max` on ranks with first-wins ties -/
+
+/-- 0 for "nothing found", version + 1 otherwise -/
+def rk : Option Entry → Nat
+  | none => 0
+  | some e => e.ver + 1
+
+theorem better_eq_ite (a b : Option Entry) : better a b = if rk a < rk b then b else a := by
+  cases a with
+  | none => cases b <;> simp [better, rk]
+  | some a => cases b with
+    | none => simp [better, rk]
+    | some b =>
+      simp only [better, rk]
+      by_cases h : a.ver < b.ver
+      · have : a.ver + 1 < b.ver + 1 := by omega
+        simp [h, this]
+      · have : ¬ a.ver + 1 < b.ver + 1 := by omega
+        simp [h, this]
+
+theorem rk_better (a b : Option Entry) : rk (better a b) = max (rk a) (rk b) := by
+  rw [better_eq_ite]
+  split <;> omega
+
+/-- an answer that is not ranked above the accumulated one is absorbed -/
+theorem better_absorb {a b : Option Entry} (h : rk b ≤ rk a) : better a b = a := by
+  rw [better_eq_ite]
+  have : ¬ rk a < rk b := by omega
+  simp [this]
+
+theorem better_idem (a : Option Entry) : better a a = a := better_absorb (Nat.le_refl _)
+
+theorem better_comm_of_none {a b : Option Entry} (h : a = none ∨ b = none) : better a b = better b a := by
+  rcases h with h | h <;> subst h <;> simp [better_none_left, better_none_right]
+
+theorem rk_eq_zero {a : Option Entry} : rk a = 0 ↔ a = none := by
+  cases a <;> simp [rk]
+
+theorem rk_pick_le_flatten (q : IK) {t : Src} {ts : List Src} (h : t ∈ ts) :
+    rk (pick q t) ≤ rk (pick q ts.flatten) := by
+  induction ts with
+  | nil => simp at h
+  | cons x ts ih =>
+    simp only [List.flatten_cons, pick_append, rk_better]
+    rcases List.mem_cons.mp h with h | h
+    · subst h; omega
+    · have := ih h; omega
+
 /-! ### the max-version scan over tables equals `pick` over their concatenation -/
 
 def accV : Option Entry → Nat
   | none => 0
   | some e => e.ver
 
-theorem scan_lt (q : IK) (ts : List Src) :
-    ∀ best : Option Entry, (∀ t ∈ ts, ∀ e ∈ t, 1 ≤ e.ver) →
-      scan .lt q (accV best, best) ts =
+/-- with version-0 hits accepted (`zeroVersionFound`) and the strict tie rule, scanning tables in
+    order computes `better` over their answers — for any versions -/
+theorem scan_found (q : IK) (ts : List Src) :
+    ∀ best : Option Entry,
+      scan .lt true q (accV best, best) ts =
         (accV (better best (pick q ts.flatten)), better best (pick q ts.flatten)) := by
   induction ts with
-  | nil => intro best _; simp [scan, pick, better_none_right]
+  | nil => intro best; simp [scan, pick, better_none_right]
   | cons t ts ih =>
-    intro best hpos
-    have hpos' : ∀ t' ∈ ts, ∀ e ∈ t', 1 ≤ e.ver := fun t' h => hpos t' (List.mem_cons_of_mem _ h)
-    have hpt : ∀ e ∈ t, 1 ≤ e.ver := hpos t List.mem_cons_self
+    intro best
     have hsplit : better best (pick q (t :: ts).flatten)
         = better (better best (pick q t)) (pick q ts.flatten) := by
       simp [pick_append, better_assoc]
     rw [hsplit]
-    -- what `better best (pick q t)` is, in terms of the comparison the code makes
-    have key : ∀ e, pick q t = some e →
-        (accV best < e.ver → better best (some e) = some e) ∧
-        (¬ accV best < e.ver → better best (some e) = best) := by
-      intro e he
-      have hmem := pick_mem he
-      have hp := hpt e hmem
-      cases best with
-      | none => simp [accV, better]; omega
-      | some b =>
-        simp only [accV, better]
-        constructor
-        · intro h; simp [h]
-        · intro h; simp [h]
     simp only [scan]
-    by_cases hprune : tmax t ≤ accV best
-    · simp only [hprune, if_true]
+    by_cases hprune : (true = false ∨ best ≠ none) ∧ tmax t ≤ accV best
+    · simp only [hprune, and_self, if_true]
+      obtain ⟨hb, hle⟩ := hprune
+      have hb' : best ≠ none := by
+        rcases hb with hb | hb
+        · cases hb
+        · exact hb
       have : better best (pick q t) = best := by
         cases he : pick q t with
         | none => exact better_none_right _
         | some e =>
           have h1 := le_tmax (pick_mem he)
-          exact (key e he).2 (by omega)
+          cases best with
+          | none => exact absurd rfl hb'
+          | some b =>
+            simp only [accV] at hle
+            exact better_absorb (by simp only [rk]; omega)
       rw [this]
-      exact ih best hpos'
+      exact ih best
     · simp only [hprune, if_false]
       cases he : pick q t with
       | none =>
         simp only [seek, he, better_none_right]
-        exact ih best hpos'
+        exact ih best
       | some e =>
         simp only [seek, he]
-        by_cases hlt : accV best < e.ver
-        · have h2 := (key e he).1 hlt
-          simp only [CmpOp.nat, CmpOp.eval, hlt, decide_true, if_true, h2]
-          exact ih (some e) hpos'
-        · have h2 := (key e he).2 hlt
-          simp only [CmpOp.nat, CmpOp.eval, hlt, decide_false, h2]
-          exact ih best hpos'
-
-/-! ### `get` of a good configuration is `pick` over the sources in visiting order -/
-
-/-- all sources in the order a good configuration visits them (main tables excluded) -/
-def flat (s : St) : List Entry :=
-  (s.mem :: s.imms).flatten ++ (s.l0.flatten ++ s.ing.flatten)
-
-theorem get_good (c : Cfg) (hc : c.ReadGood) (s : St) (q : IK)
-    (hmain : s.main = []) (hpos : ∀ e ∈ flat s, 1 ≤ e.ver) :
-    get c s q = pick q (flat s) := by
-  obtain ⟨h1, h2, h3, h4, h5, h6, -, -⟩ := hc
-  have hl0 : ∀ t ∈ s.l0, ∀ e ∈ t, 1 ≤ e.ver := by
-    intro t ht e he
-    apply hpos
-    simp only [flat, List.mem_append, List.mem_flatten]
-    exact Or.inr (Or.inl ⟨t, ht, he⟩)
-  have hing : ∀ t ∈ s.ing, ∀ e ∈ t, 1 ≤ e.ver := by
-    intro t ht e he
-    apply hpos
-    simp only [flat, List.mem_append, List.mem_flatten]
-    exact Or.inr (Or.inr ⟨t, ht, he⟩)
-  have e0 := scan_lt q s.l0 none hl0
-  have e1 := scan_lt q s.ing none hing
-  simp only [accV, better_none_left] at e0 e1
-  unfold get levelGet
-  simp only [h1, h2, h3, h4, h5, h6, immVisit, l0Visit, ingVisit, hmain, mainCandidate, scan, e0, e1]
-  rw [List.foldr_append, foldr_better_pick]
-  simp only [List.foldr, better_none_right, flat, pick_append]
+        cases best with
+        | none =>
+          simp only [true_and, true_or, if_true, better_none_left]
+          exact ih (some e)
+        | some b =>
+          by_cases hlt : b.ver < e.ver
+          · have h2 : better (some b) (some e) = some e := by simp [better, hlt]
+            simp only [accV, CmpOp.nat, CmpOp.eval, hlt, decide_true, or_true, if_true, h2]
+            exact ih (some e)
+          · have h2 : better (some b) (some e) = some b := by simp [better, hlt]
+            simp only [accV, CmpOp.nat, CmpOp.eval, hlt, decide_false, h2]
+            simp only [reduceCtorEq, and_false, Bool.false_eq_true, or_self, if_false]
+            exact ih (some b)
 
 end NoKV.Lsm
